@@ -24,7 +24,7 @@ func init() {
 		Explanation: `R08.1 accounting: every op written by the diff's op writer updates exactly one of FreshBytes/ReusedBytes before the write; R08.2 both sides use the same weak (βhash) and strong (uniqueHash) hash functions; ` +
 			`R08.3 after a match the rolling state is reset and the library lookup is skipped only while rolling with an unchanged hash; R08.4 library completeness: NewBlockLibrary inserts every hash, and findUniqueHash gives up (returns nil) only after its fallback loop exhausted the whole bucket. ` +
 			`R08.6 every way round the loop from the rolling-checksum update back to it slides the hash window by one byte (or restarts the hash from scratch). ` +
-			`R01.8 (shared) every file announced in the patch went through the differ (no per-file shortcut that looks blocks up by its own conventions). NOT decided (numerical): that the rolling update equals βhash at every offset, the per-edit bound, the values of FreshBytes/ReusedBytes.`,
+			`R01.8 (shared) every file announced in the patch went through the differ (no per-file shortcut that looks blocks up by its own conventions). R08.7 every token the block split function hands to the signer is at most one block: data[:blockSize], or data where len(data) >= blockSize does not hold. R04.7 (shared) WritePatch's path-to-index map is keyed by the path itself. NOT decided (numerical): that the rolling update equals βhash at every offset, the per-edit bound, the values of FreshBytes/ReusedBytes.`,
 		Run:        runC08,
 		Fixtures:   fixturesAlias,
 		FixturePkg: "aliasfx",
@@ -463,7 +463,33 @@ func runC11(c *core.Ctx) {
 			}
 			nMid++
 			nonEmpty := hasGuard(l.a, func(g core.Guard) bool {
-				return relHolds(g, token.LSS, func(v ssa.Value) bool { return sameExpr(v, sl.Low) }, func(v ssa.Value) bool { return sameExpr(v, sl.High) })
+				if relHolds(g, token.LSS, func(v ssa.Value) bool { return sameExpr(v, sl.Low) }, func(v ssa.Value) bool { return sameExpr(v, sl.High) }) {
+					return true
+				}
+				// high - low >= k (k >= 1) or > k (k >= 0) says the same
+				bo, ok := g.Cond.(*ssa.BinOp)
+				if !ok {
+					return false
+				}
+				diff, ok := core.StripConv(bo.X).(*ssa.BinOp)
+				if !ok || diff.Op != token.SUB || !sameExpr(diff.X, sl.High) || !sameExpr(diff.Y, sl.Low) {
+					return false
+				}
+				k, isK := core.ConstInt(bo.Y)
+				if !isK {
+					return false
+				}
+				switch bo.Op {
+				case token.GEQ:
+					return g.Val && k >= 1
+				case token.GTR:
+					return g.Val && k >= 0
+				case token.LSS:
+					return !g.Val && k >= 1
+				case token.LEQ:
+					return !g.Val && k >= 0
+				}
+				return false
 			})
 			c.Check(nonEmpty, "R11.6", core.FnName(cd), "mid-stream data op "+core.Describe(dv)+" is made only when non-empty", core.InstrPos(l.a),
 				"dominated by low < high", "a data op that may be empty is sent while the scan goes on: it flushes the pending block range and is then dropped by the cleaner, so a run of consecutive matching blocks comes out as several ranges")
@@ -544,6 +570,8 @@ func runC08(c *core.Ctx) {
 	c.Rule("R08.3", "re-synchronisation after a match")
 	c.Rule("R08.4", "library completeness")
 	ruleEveryFileThroughTheDiffer(c)
+	ruleSplitTokensAreOneBlock(c, "R08.7")
+	rulePathKeysAreOneToOne(c, "R04.7", 2, func(fn *ssa.Function) bool { return strings.HasSuffix(core.FnName(fn), ".WritePatch") })
 	ruleShortSizeIsShort(c, "R04.5")
 	ruleNoAppendToInteriorSubslice(c, "R08.5", "/wsync", "/pwr", "/bsdiff", "/pwr/bowl", "/pwr/patcher", "/pwr/rediff")
 	// ---- R08.1
